@@ -8,6 +8,12 @@ use serde_json::Value;
 pub fn predicate(name: &str, case: &Value, fail: &Fail) -> bool {
     let _ = (case, fail);
     match name {
+        // F21 (C18): the text itself starts with U+FEFF; the decoder strips it, load_from_str keeps
+        // it as content
+        "c18_text_starts_with_bom" => {
+            fail.category == "decode-differs"
+                && case.get("text").and_then(|t| t.as_str()).map(|t| t.starts_with('\u{feff}')).unwrap_or(false)
+        }
         _ => false,
     }
 }
